@@ -44,8 +44,8 @@ pub fn run(n: usize) {
         }
         let sp = scratch.file(&sdl, "graphql");
         let jp = scratch.file(&json, "json");
-        jobs.push(Job { schema_path: sp, query: QuerySrc::Text(q.clone()), opts: Opts::default() });
-        jobs.push(Job { schema_path: jp, query: QuerySrc::Text(q.clone()), opts: Opts::default() });
+        jobs.push(Job { schema_path: sp, query: QuerySrc::Text(q.clone()), opts: Opts::default(), cwd: None });
+        jobs.push(Job { schema_path: jp, query: QuerySrc::Text(q.clone()), opts: Opts::default(), cwd: None });
         texts.push((sdl, q));
     }
     let pool = Pool::default();
